@@ -185,6 +185,57 @@ fn gen_value(rng: &mut Rng) -> String {
     }
 }
 
+/// datatypes a serialiser or parser might treat specially (Turtle shorthands, canonicalisation, rdf:langString, XML literals)
+const WELL_KNOWN_DTS: &[&str] = &[
+    XSD_STRING,
+    "http://www.w3.org/2001/XMLSchema#integer",
+    "http://www.w3.org/2001/XMLSchema#decimal",
+    "http://www.w3.org/2001/XMLSchema#double",
+    "http://www.w3.org/2001/XMLSchema#float",
+    "http://www.w3.org/2001/XMLSchema#boolean",
+    "http://www.w3.org/2001/XMLSchema#dateTime",
+    "http://www.w3.org/2001/XMLSchema#date",
+    "http://www.w3.org/2001/XMLSchema#anyURI",
+    "http://www.w3.org/2001/XMLSchema#long",
+    "http://www.w3.org/2001/XMLSchema#normalizedString",
+    "http://www.w3.org/2001/XMLSchema#token",
+    "http://www.w3.org/2001/XMLSchema#hexBinary",
+    "http://www.w3.org/1999/02/22-rdf-syntax-ns#langString",
+    "http://www.w3.org/1999/02/22-rdf-syntax-ns#XMLLiteral",
+    "http://www.w3.org/1999/02/22-rdf-syntax-ns#HTML",
+    "http://www.w3.org/1999/02/22-rdf-syntax-ns#JSON",
+    "http://www.w3.org/1999/02/22-rdf-syntax-ns#PlainLiteral",
+];
+
+/// lexical forms that a datatype-aware edit would normalise, abbreviate or reject
+const LEXICAL: &[&str] = &[
+    "0", "1", "-1", "+1", "007", "-0", "1.0", "1.", ".5", "1.50", "1E0", "1e+3", "-1.5E-3", "INF", "-INF", "NaN", "true", "false", "TRUE", "True",
+    " 7 ", "7\n", "", "1 2", "0x1F", "12345678901234567890123456789", "2020-01-01", "2020-01-01T00:00:00Z", "2020-01-01T00:00:00+00:00",
+    "24:00:00", "http://e/ x", "<b>x</b>", "<a href='x'>&amp;</a>", "{\"a\": [1, \"\\n\"]}", "DEADBEEF", "a  b", " a", "a ", "\ta",
+];
+
+fn gen_typed_value(rng: &mut Rng) -> String {
+    if rng.chance(1, 2) {
+        rng.pick(LEXICAL).to_string()
+    } else {
+        gen_value(rng)
+    }
+}
+
+/// a literal of `n` chars whose escape-needing / multi-byte characters sit on and around position `n`-ish buffer borders
+fn long_value(rng: &mut Rng, n: usize) -> String {
+    let mut v: Vec<String> = (0..n).map(|i| ((b'a' + (i % 26) as u8) as char).to_string()).collect();
+    let special = ["\"", "\\", "\n", "\r", "<", "&", "'", "é", "中", "\u{1F600}", " ", "\t", "]]>"];
+    for k in 0..n {
+        // densely near the ends and at powers of two, sparsely elsewhere
+        let near = k < 3 || k + 3 >= n || (k + 2).next_power_of_two() - k <= 2 || k.is_power_of_two();
+        if near || rng.chance(1, 97) {
+            v[k] = rng.pick(&special).to_string();
+        }
+    }
+    v.concat()
+}
+
 struct Pools {
     iris: Vec<String>,
     preds: Vec<String>,
@@ -199,6 +250,19 @@ fn iri_candidates(rng: &mut Rng) -> Vec<String> {
         "http://e/s", "http://e/", "http://example.org/ns#Thing", "urn:x:y", "http://e/a/b.c-d_e~", "https://[::1]:8080/p?x=1&y='2'#f",
         "mailto:a@b.c", "http://é.example/ü", "http://e/%20%3C", "x-y.z+1:q", "http://e/\u{10000}", "http://e/a(b)*!$,;=",
         "tag:e,2020:x", "http://e/1", "http://e/a:b", "http://e/a\u{b7}", "http://e/中文", "http://e/\u{1F600}", "HTTP://E/P", "a:",
+        // predicates / terms ending in a namespace separator or with an awkward local part
+        "http://e/ns#", "http://e/p/", "http://e/a#b/", "http://e/#", "urn:x:", "http://e/p?q=", "http://e/p.", "http://e/p-", "http://e/%C3%A9",
+        "http://e/1a", "http://e/_", "http://e/é", "http://e/a.b", "http://e/-a", "http://e/ns#1", "http://e/ns#a#b", "http://e/a/b/c", "http://e/x#y/z",
+        // vocabulary the formats give special syntax to (Turtle `a`, collections; RDF/XML reserved names, rdf:li, xml:lang)
+        "http://www.w3.org/1999/02/22-rdf-syntax-ns#type", "http://www.w3.org/1999/02/22-rdf-syntax-ns#li", "http://www.w3.org/1999/02/22-rdf-syntax-ns#_1",
+        "http://www.w3.org/1999/02/22-rdf-syntax-ns#nil", "http://www.w3.org/1999/02/22-rdf-syntax-ns#first", "http://www.w3.org/1999/02/22-rdf-syntax-ns#rest",
+        "http://www.w3.org/1999/02/22-rdf-syntax-ns#Description", "http://www.w3.org/1999/02/22-rdf-syntax-ns#about", "http://www.w3.org/1999/02/22-rdf-syntax-ns#RDF",
+        "http://www.w3.org/1999/02/22-rdf-syntax-ns#ID", "http://www.w3.org/1999/02/22-rdf-syntax-ns#resource", "http://www.w3.org/1999/02/22-rdf-syntax-ns#nodeID",
+        "http://www.w3.org/1999/02/22-rdf-syntax-ns#datatype", "http://www.w3.org/1999/02/22-rdf-syntax-ns#parseType", "http://www.w3.org/1999/02/22-rdf-syntax-ns#value",
+        "http://www.w3.org/1999/02/22-rdf-syntax-ns#aboutEach", "http://www.w3.org/1999/02/22-rdf-syntax-ns#aboutEachPrefix", "http://www.w3.org/1999/02/22-rdf-syntax-ns#bagID",
+        "http://www.w3.org/1999/02/22-rdf-syntax-ns#subject", "http://www.w3.org/1999/02/22-rdf-syntax-ns#Bag", "http://www.w3.org/1999/02/22-rdf-syntax-ns#_2", "http://www.w3.org/1999/02/22-rdf-syntax-ns#lix",
+        "http://www.w3.org/1999/02/22-rdf-syntax-ns#", "http://www.w3.org/2000/01/rdf-schema#label", "http://www.w3.org/XML/1998/namespace", "http://www.w3.org/XML/1998/namespacelang",
+        "http://www.w3.org/2000/xmlns/", "http://www.w3.org/2000/xmlns/x", "http://www.w3.org/2001/XMLSchema#string", "http://www.w3.org/2002/07/owl#sameAs",
         // candidates the constructor must reject (and the model's lexical condition too, or not — only the implication is checked)
         "http://e/ p", "http://e/p>", "http://e/<p", "http://e/p\\u0041", "http://e/\"", "http://e/{x}", "http://e/a|b", "http://e/^",
         "http://e/`", "http://e/\n", "http://e/\t", "", "no-scheme", "http://e/%zz", "http://e/\u{10FFFD}", "1a:b", "http://e/\u{7f}",
@@ -220,7 +284,7 @@ fn iri_candidates(rng: &mut Rng) -> Vec<String> {
 fn bnode_candidates(rng: &mut Rng) -> Vec<String> {
     let mut v: Vec<String> = [
         "a", "b1", "x_y", "a.b", "a-b", "0", "0a", "123", "a1f", "é", "a\u{b7}b", "a:b", ":a", "a..b", "_", "_a", "a.", "-a", "\u{b7}", "",
-        "a b", "a.é", "a\u{300}", "a.\u{300}", "A", "a.-", "a.b.c", "0.0", "a\u{203f}", "\u{10000}", "a.\u{2028}",
+        "a b", "a.é", "a\u{300}", "a.\u{300}", "A", "a.-", "a.b.c", "0.0", "a\u{203f}", "\u{10000}", "a.\u{2028}", "ffffffffffffffffffffffffffffffff", "fffffffffffffffffffffffffffffffff", "00a", "0x1", "deadbeef", "DEADBEEF", "1e5", "genid-1", "b_0.1-x",
     ]
     .iter()
     .map(|s| s.to_string())
@@ -234,7 +298,7 @@ fn bnode_candidates(rng: &mut Rng) -> Vec<String> {
 }
 
 fn lang_candidates() -> Vec<String> {
-    ["en", "EN", "en-US", "de-CH-1996", "x-private", "zh-Hant-TW", "i-klingon", "fr-", "-fr", "e", "en_US", "toolongtag1", "en-a-bbb", "", "12", "sl-rozaj-biske", "en US", "é"]
+    ["en", "EN", "en-US", "de-CH-1996", "x-private", "zh-Hant-TW", "i-klingon", "fr-", "-fr", "e", "en_US", "toolongtag1", "en-a-bbb", "", "12", "sl-rozaj-biske", "en US", "é", "en-GB-oed", "zh-cmn-Hans-CN", "de-DE-u-co-phonebk", "x-a-b", "EN-us", "Fr-Latn-ca", "en-Latn-US-x-priv", "es-419", "de-1996", "a-b", "qaa-Qaaa-QM-x-southern"]
         .iter()
         .map(|s| s.to_string())
         .collect()
@@ -400,7 +464,7 @@ fn main() {
             }
         }
     }
-    for d in [XSD_STRING, "http://www.w3.org/2001/XMLSchema#integer", "http://www.w3.org/1999/02/22-rdf-syntax-ns#langString", "http://www.w3.org/1999/02/22-rdf-syntax-ns#XMLLiteral"] {
+    for d in WELL_KNOWN_DTS {
         pools.dts.push(d.to_string());
     }
     if let Some(b) = &lex_break {
@@ -443,9 +507,76 @@ fn main() {
                 cases.push(vec![T3 { s: s.clone(), p: "http://e/p".into(), o: Term::Simple(format!("{}{}", a, b)) }]);
             }
         }
+        // every (lexical form, well-known datatype) pair as a typed literal; every accepted IRI in each position
+        // (subject, predicate, object, datatype); every accepted language tag; every blank-node label in both positions
+        for d in WELL_KNOWN_DTS {
+            for v in LEXICAL {
+                cases.push(vec![T3 { s: s.clone(), p: "http://e/p".into(), o: Term::Typed(v.to_string(), d.to_string()) }]);
+            }
+        }
+        for i in &pools.iris {
+            cases.push(vec![T3 { s: Term::Iri(i.clone()), p: "http://e/p".into(), o: Term::Simple("x".into()) }]);
+            cases.push(vec![T3 { s: s.clone(), p: i.clone(), o: Term::Simple("x".into()) }]);
+            cases.push(vec![T3 { s: s.clone(), p: i.clone(), o: Term::Iri(i.clone()) }]);
+            cases.push(vec![T3 { s: s.clone(), p: "http://e/p".into(), o: Term::Typed("x".into(), i.clone()) }]);
+            // the same predicate twice and next to another one: grouping in Turtle (`,` `;`) and RDF/XML
+            cases.push(vec![
+                T3 { s: s.clone(), p: i.clone(), o: Term::Simple("1".into()) },
+                T3 { s: s.clone(), p: i.clone(), o: Term::Iri("http://e/o".into()) },
+                T3 { s: s.clone(), p: "http://e/p".into(), o: Term::Iri(i.clone()) },
+                T3 { s: Term::Iri(i.clone()), p: i.clone(), o: Term::Simple("2".into()) },
+            ]);
+        }
+        for l in &pools.langs {
+            for v in ["", "x", "a\"b\n", " "] {
+                cases.push(vec![T3 { s: s.clone(), p: "http://e/p".into(), o: Term::Lang(v.to_string(), l.clone()) }]);
+            }
+        }
+        for b in pools.bnodes_ok.iter().chain(pools.bnodes_odd.iter()) {
+            cases.push(vec![T3 { s: Term::Bnode(b.clone()), p: "http://e/p".into(), o: Term::Simple("x".into()) }]);
+            cases.push(vec![T3 { s: s.clone(), p: "http://e/p".into(), o: Term::Bnode(b.clone()) }]);
+        }
+        // size thresholds: many triples per subject, many objects per (subject, predicate), many subjects
+        for &n in &[17usize, 33, 65, 130, 300] {
+            for shape in 0..4 {
+                let mut ts = vec![];
+                for k in 0..n {
+                    let subj = match shape {
+                        0 | 1 => s.clone(),
+                        2 => Term::Iri(format!("http://e/s{}", k)),
+                        _ => if k % 3 == 0 { Term::Bnode(format!("b{}", k % 7)) } else { Term::Iri(format!("http://e/s{}", k % 5)) },
+                    };
+                    let pred = match shape {
+                        0 => "http://e/p".to_string(),
+                        1 => format!("http://e/ns#p{}", k),
+                        2 => "http://e/p".to_string(),
+                        _ => format!("http://e/p{}", k % 4),
+                    };
+                    let o = match k % 5 {
+                        0 => Term::Iri(format!("http://e/o{}", k)),
+                        1 => Term::Lang(format!("v{}\"", k), "en-us".into()),
+                        2 => Term::Typed(format!("{}", k), "http://www.w3.org/2001/XMLSchema#integer".into()),
+                        3 => Term::Bnode(format!("b{}", k % 7)),
+                        _ => Term::Simple(format!("v{}\n{}", k, rng.pick(BOUNDARY))),
+                    };
+                    ts.push(T3 { s: subj, p: pred, o });
+                }
+                cases.push(ts);
+            }
+        }
+        // length thresholds: long literals with escape-needing and multi-byte characters on buffer borders
+        let long_lens: &[usize] = if args.thorough() { &[255, 256, 257, 1023, 1025, 4095, 4096, 4097, 8191, 8192, 8193, 16385, 20000] } else { &[255, 257, 4096, 8191, 8193] };
+        for &n in long_lens {
+            let v = long_value(&mut rng, n);
+            cases.push(vec![T3 { s: s.clone(), p: "http://e/p".into(), o: Term::Simple(v.clone()) }]);
+            cases.push(vec![
+                T3 { s: s.clone(), p: "http://e/p".into(), o: Term::Lang(v.clone(), "en".into()) },
+                T3 { s: s.clone(), p: "http://e/p".into(), o: Term::Typed(v, "http://e/dt".into()) },
+            ]);
+        }
         rep.exhaustive = true;
         rep.exhaustive_note = format!(
-            "all plain literals made of one or two of the {} boundary strings (single triple), in all three formats; plus PRNG triple sets (not exhaustive)",
+            "all plain literals made of one or two of the {} boundary strings (single triple); every (lexical form, well-known datatype) pair; every accepted IRI candidate (incl. rdf:/xml: vocabulary and IRIs ending in # or /) as subject, predicate, object and datatype; every accepted language tag and blank-node label; triple sets of 17-300 triples in four sharing shapes; literals of 255-20000 characters - all in all three formats; plus PRNG triple sets (not exhaustive)",
             BOUNDARY.len()
         );
         let n_rand = if args.thorough() { 40_000 } else { 4_000 };
@@ -461,7 +592,22 @@ fn main() {
                     }
                 })
                 .collect();
-            let pred_pool: Vec<String> = (0..1 + rng.usize(2)).map(|_| rng.pick(&pools.preds).clone()).collect();
+            // predicates RDF/XML cannot carry (known findings) only in a fraction of the cases, so that they do not mask the rest
+            let special_preds = k % 8 == 1;
+            let is_special = |p: &str| {
+                p == "http://www.w3.org/2000/xmlns/"
+                    || p.strip_prefix("http://www.w3.org/1999/02/22-rdf-syntax-ns#").map_or(false, |l| {
+                        ["li", "about", "aboutEach", "aboutEachPrefix", "bagID", "datatype", "ID", "nodeID", "parseType", "RDF", "resource", "Description"].contains(&l)
+                    })
+            };
+            let pred_pool: Vec<String> = (0..1 + rng.usize(2))
+                .map(|_| loop {
+                    let p = rng.pick(&pools.preds).clone();
+                    if special_preds || !is_special(&p) {
+                        break p;
+                    }
+                })
+                .collect();
             let mut ts = vec![];
             for _ in 0..n {
                 let o = match rng.below(10) {
@@ -471,7 +617,7 @@ fn main() {
                         _ => Term::Bnode(rng.pick(&pools.bnodes_ok).clone()),
                     },
                     2 | 3 => Term::Lang(gen_value(&mut rng), rng.pick(&pools.langs).clone()),
-                    4 | 5 => Term::Typed(gen_value(&mut rng), rng.pick(&pools.dts).clone()),
+                    4 | 5 => Term::Typed(gen_typed_value(&mut rng), if rng.chance(1, 2) { rng.pick(WELL_KNOWN_DTS).to_string() } else { rng.pick(&pools.dts).clone() }),
                     _ => Term::Simple(gen_value(&mut rng)),
                 };
                 ts.push(T3 { s: rng.pick(&subj_pool).clone(), p: rng.pick(&pred_pool).clone(), o });
@@ -588,6 +734,11 @@ fn main() {
             }
             let sig = format!("{}:{}", fname, cls);
             rep.count(&format!("spec_violation:{}", sig));
+            // human-readable log of every minimised violation (development aid; the replays are the evidence)
+            if let Ok(mut f) = std::fs::OpenOptions::new().create(true).append(true).open(args.work.join("c36-violations.txt")) {
+                use std::io::Write;
+                let _ = writeln!(f, "{}\t{:?}", sig, cur);
+            }
             let body = format!("case {}\nformat {}\nminimised from: {}\nclass {}", show_case(&cur), fname, show_case(&built[ci].ts), cls);
             if seen.insert(format!("{}|{}", sig, show_case(&cur))) {
                 rep.spec_violation(&known, &sig, &format!("{}: `{}` does not round-trip ({})", fname, show_case(&cur), cls), &body);
@@ -596,12 +747,20 @@ fn main() {
             if known.is_known(&sig).is_some() {
                 let ws_only = |v: &str| !v.is_empty() && v.chars().all(|c| matches!(c, ' ' | '\t' | '\n' | '\r'));
                 let odd = |t: &Term| matches!(t, Term::Bnode(b) if pools.bnodes_odd.contains(b) || !pools.bnodes_ok.contains(b));
+                const RDF_NS: &str = "http://www.w3.org/1999/02/22-rdf-syntax-ns#";
+                let special_pred = |p: &str| {
+                    p == "http://www.w3.org/2000/xmlns/"
+                        || p.strip_prefix(RDF_NS).map_or(false, |l| {
+                            ["li", "about", "aboutEach", "aboutEachPrefix", "bagID", "datatype", "ID", "nodeID", "parseType", "RDF", "resource", "Description"].contains(&l)
+                        })
+                };
                 let rest: Vec<T3> = built[ci]
                     .ts
                     .iter()
                     .filter(|t| {
                         !(odd(&t.s)
                             || odd(&t.o)
+                            || (fname == "xml" && special_pred(&t.p))
                             || (fname == "xml" && matches!(&t.o, Term::Simple(v) | Term::Lang(v, _) | Term::Typed(v, _) if ws_only(v))))
                     })
                     .cloned()
